@@ -138,6 +138,29 @@ SHAPES = {
 }
 
 
+# recursion that does not pass through a built-in, STARTED from script code a built-in is running (the frames are pushed by the
+# nested interpreter loop that runs callbacks, accessors and conversions): entry x kind of recursion
+REC_KINDS = {
+    "self": ("function r(){ n++; r() }", "r()"),
+    "mutual": ("function r(){ n++; q() } function q(){ n++; r() }", "r()"),
+    "method": ("var ro = { m: function(){ n++; return this.m() } };", "ro.m()"),
+    "ctor": ("function R(){ n++; new R() }", "new R()"),
+    "operands": ("function r(){ n++; return [1,2,3,[4,[5, r()]]] }", "r()"),
+}
+ENTRIES = {
+    "forEach": "[1].forEach(function(){ START });", "map": "[1].map(function(){ START });", "reduce": "[1,2].reduce(function(){ START });",
+    "sort": "[2,1].sort(function(){ START; return 0 });", "getter": "var eo = { get g(){ START; return 1 } }; eo.g;",
+    "setter": "var eo = { set s(v){ START } }; eo.s = 1;", "valueOf": "var eo = { valueOf: function(){ START; return 1 } }; eo + 1;",
+    "toString": "var eo = { toString: function(){ START; return '' } }; '' + eo;", "call": "(function(){ START }).call(null);",
+    "apply": "(function(){ START }).apply(null, []);", "bind": "(function(){ START }).bind(null)();",
+    "replace": "'a'.replace(/a/, function(){ START; return 'b' });",
+    "nested": "[1].forEach(function(){ [1].map(function(){ START }) });", "eval": "(1,eval)('START');", "Function": "new Function('START')();",
+}
+for _e, _w in ENTRIES.items():
+    for _k, (_def, _start) in REC_KINDS.items():
+        SHAPES["in_%s:%s" % (_e, _k)] = "var n=0; %s %s" % (_def, _w.replace("START", _start))
+
+
 class Recorder:
     """depth statistics at loop back-edges (a backward JUMP / JUMP_IF_TRUE) per (function, target)"""
     def __init__(self):
